@@ -9,11 +9,17 @@ import sys
 import time
 import traceback
 
-from . import VERIF_ROOT
+from . import REPO, VERIF_ROOT
 from .registry import HarnessError
 
-EVIDENCE_DIR = os.path.join(VERIF_ROOT, "evidence")
-REPLAY_OUT = os.path.join(VERIF_ROOT, "replays", "out")
+# Evidence and replay files of the registered commands describe /repo itself.  Sensitivity experiments point VERIF_REPO
+# at a scratch copy: their output must not overwrite the committed evidence, so it goes to a scratch directory.
+_ALT = os.path.realpath(REPO) != "/repo"
+EVIDENCE_DIR = os.environ.get("VERIF_EVIDENCE_DIR") or (
+    os.path.join("/tmp", "verif_alt_" + os.path.basename(REPO.rstrip("/")), "evidence") if _ALT
+    else os.path.join(VERIF_ROOT, "evidence"))
+REPLAY_OUT = (os.path.join("/tmp", "verif_alt_" + os.path.basename(REPO.rstrip("/")), "replays") if _ALT
+              else os.path.join(VERIF_ROOT, "replays", "out"))
 REPLAY_REGRESS = os.path.join(VERIF_ROOT, "replays", "regress")
 KNOWN_FILE = os.path.join(VERIF_ROOT, "known_findings.json")
 WORKERS = int(os.environ.get("VERIF_WORKERS", "16"))
